@@ -15,7 +15,7 @@ RULE = ("a case is a random schema (all field families, nested schemas, config t
         "M-inv judges every readable value at every depth against the reference model, and after accepted assignments "
         "the whole state is compared with the prediction 'only this path changed, to the model's normal form'; "
         "non-trivial = >= 1 accepted and >= 1 rejected operation over >= 2 routes; distinct = distinct (schema, history)")
-REQUIRED = ("copies_between_items_of_one_list", "inv_walks", "inv_values_judged", "readback_checks", "accepted_ops", "rejected_ops", "route:set", "route:set-sub",
+REQUIRED = ("tuples_assigned_a_second_time", "copies_between_items_of_one_list", "inv_walks", "inv_values_judged", "readback_checks", "accepted_ops", "rejected_ops", "route:set", "route:set-sub",
             "route:ctor", "route:load_tree", "route:loads", "route:cmdline", "route:reset", "route:listop", "route:dictop", "route:serialize")
 ASSUMPTIONS = ["the reference model (vf/model.py) states the declared constraints; values whose status the documentation "
                "leaves open are not judged", "declared defaults are generated in normal form (the property is "
@@ -34,7 +34,9 @@ def generate(rng, ctx):
     n = rng.randrange(5, 61 if thorough else 31)
     env = gen.GEN_ENV
     ops = history.gen_ops(rng, schema, env, n, bad=rng.choice([0.15, 0.3, 0.45]))
-    for seq in history.alias_probe_ops(rng, schema, env)[:2]:
+    probes = history.alias_probe_ops(rng, schema, env)
+    rng.shuffle(probes)
+    for seq in probes[:3]:
         at = rng.randrange(len(ops) + 1)
         ops[at:at] = seq
     return {"schema": schema, "ops": ops}
@@ -78,6 +80,8 @@ def run(case, ctx, res):
         res.count("route:" + kind)
         if op.get("src_shift") and out["raised"] is None:
             res.count("copies_between_items_of_one_list")
+        if op.get("tuple_again") and out["raised"] is None:
+            res.count("tuples_assigned_a_second_time")
         routes.add(kind)
         after = drv.snapshot()
         label = "%s%s" % (out["kind"], "(rejected)" if out["raised"] is not None else "")
